@@ -99,7 +99,13 @@ func (q *workQueue) events(pre, post *sim.Snapshot) (changed bool) {
 		body string
 	}
 	index := func(s *sim.Snapshot) map[string]map[string]item {
-		m := map[string]map[string]item{"pod": {}, "rs": {}, "eds": {}, "pt": {}}
+		m := map[string]map[string]item{"pod": {}, "rs": {}, "eds": {}, "pt": {}, "setting": {}, "node": {}}
+		for _, x := range s.Settings {
+			m["setting"][x.Namespace+"/"+x.Name] = item{x, renderObj(x, x)}
+		}
+		for _, x := range s.Nodes {
+			m["node"][x.Name] = item{x, renderObj(x, x)}
+		}
 		for _, p := range s.Pods {
 			m["pod"][p.Namespace+"/"+p.Name] = item{p, renderObj(p, p)}
 		}
@@ -119,7 +125,7 @@ func (q *workQueue) events(pre, post *sim.Snapshot) (changed bool) {
 	if werr != nil {
 		panic("harness: wiring: " + werr.Error())
 	}
-	kindName := map[string]string{"pod": "Pod", "rs": "ExtendedDaemonSetReplicaSet", "eds": "ExtendedDaemonSet", "pt": "PodTemplate"}
+	kindName := map[string]string{"pod": "Pod", "rs": "ExtendedDaemonSetReplicaSet", "eds": "ExtendedDaemonSet", "pt": "PodTemplate", "setting": "ExtendedDaemonsetSetting", "node": "Node"}
 	actorOf := map[string]string{"eds": sim.ActorEDS, "ers": sim.ActorERS, "podtemplate": sim.ActorPodTemplate, "setting": sim.ActorSetting}
 	deliver := func(kind string, oldObj, newObj metav1.Object) {
 		var o, n client.Object
@@ -139,7 +145,7 @@ func (q *workQueue) events(pre, post *sim.Snapshot) (changed bool) {
 			}
 		}
 	}
-	for _, kind := range []string{"pod", "rs", "eds", "pt"} {
+	for _, kind := range []string{"pod", "rs", "eds", "pt", "setting", "node"} {
 		keys := map[string]bool{}
 		for k := range a[kind] {
 			keys[k] = true
